@@ -1,5 +1,7 @@
 import PdfModel.Lemmas.Build
 import PdfModel.Lemmas.XrefWidths
+import PdfModel.Lemmas.BuildBytes
+import PdfModel.Props.C09
 
 /-!
 # C10 — documents built from scratch reload with the same pages and are valid PDF
@@ -45,7 +47,7 @@ theorem byteLen_at_powers (k : Nat) (hk : 1 ≤ k) :
     (`type, field₁ big-endian, field₂ big-endian`) decode to the row. -/
 theorem rows_fit_widths {V : Type} (P : Params V) (L : Layout) (hL : L.Pos) (d0 d d' : Doc V) (chain0) (i : SaveInfo)
     (hb : BaseOK d0 chain0) (hi : Inv d0 d) (h : save P L d = (d', .ok i)) :
-    ∀ r ∈ i.rows, ∀ ty a b, fieldsOf r = some (ty, a, b) →
+    ∀ r ∈ i.rows, ∀ ty a b, Storage.fieldsOf r = some (ty, a, b) →
       a < 256 ^ i.aw ∧ b < 256 ^ i.bw ∧
       rowBytes i.aw i.bw r = ty :: (beBytes i.aw a ++ beBytes i.bw b) ∧
       (beBytes i.aw a).length = i.aw ∧ (beBytes i.bw b).length = i.bw ∧
@@ -142,9 +144,9 @@ theorem build_valid (L : Layout) (cached : Bool) (pages : List (PageSpec A R C))
   obtain ⟨ext, e1, e2⟩ := sh.ids_lt
   -- pending values of the new state
   have hst : ∀ j, chLookup d'.st.changes j =
-      if j = (prep d).xid then some (params.xrefVal, 0) else chLookup (prep d).st2.changes j := by
+      if j = (prep d).xid then some (params.xrefVal i, 0) else chLookup (prep d).st2.changes j := by
     obtain ⟨w, rows, _, _, hst, _⟩ := save_ok_spec params L d d' i hs
-    intro j; rw [hst]; simp [commit, chLookup_chInsert]
+    intro j; rw [hst]; simp [commit, chLookup_chInsert, params]
   refine ⟨hstart, ⟨s, by rw [hstart, Nat.zero_add] at s1; exact s1, s2, s3, by rw [s5, hpr.tr_prev], by rw [s4, htr]⟩,
     by have := sh.rows_len; omega, by rw [hsz, pf.size_eq]; exact hmax, ?_, ?_, ?_⟩
   · intro o ho
@@ -187,7 +189,7 @@ theorem build_valid (L : Layout) (cached : Bool) (pages : List (PageSpec A R C))
 /-! ## Non-vacuity: a two-page document with an info dictionary -/
 
 def samplePages : List (PageSpec Nat Nat Nat) := [⟨10, 20, 30⟩, ⟨11, 21, 31⟩]
-def L9 : Layout := ⟨fun id => 40 + id, 90, 25⟩
+def L9 : Layout := ⟨fun id => 40 + id, fun _ => 90, fun _ => 25⟩
 
 example : (match build L9 false samplePages (some 5) with
     | .ok (d, i) =>
@@ -204,3 +206,258 @@ example : (match build L9 true ([] : List (PageSpec Nat Nat Nat)) (none : Option
     | _ => false) = true := by decide
 
 end Build
+
+/-!
+## C10 at byte level (L2)
+
+`BuildBytes.buildB` is `PdfBuilder::build` with every object a primitive and the file rendered by `SaveBytes.saveB`
+(Model/BuildBytes.lean) — the correspondence stream `c10.bytes` compares its output with the bytes `PdfBuilder::build`
+returns, byte for byte. The theorems below are about those bytes: they load again through the byte-level open path
+and every object the builder wrote is read back with its value (`build_bytes_reload`), and they are structurally valid
+(`build_bytes_valid`). The base is the empty storage, whose bytes (the header line) represent it trivially: no
+hypothesis about a base file remains. What remains explicit: the page payloads are within the limits of the
+round-trip theorems (`PageOK`, `OKVal`), `f32` text only through `Serialisable`, no filter, no encryption, the output
+below 2³¹ bytes.
+-/
+
+namespace C10Bytes
+open Storage PdfLex Xref OpenBytes SaveBytes RepBytes BuildBytes
+open PdfSyntax (SpellsStream)
+
+variable {R : Type}
+
+/-- the state in which the builder calls `save` satisfies the invariant of byte-level histories -/
+theorem hinv_prepared (fmt : R → List UInt8) (env : Env R) (hd : env.decrypt = none) (pfuel : Nat)
+    (dec : Dict R → List UInt8 → Out (List UInt8)) (hdec : NoFilter dec) (pages : List (PageB R)) (info : Option (Prim R))
+    (hn : pages.length ≤ 1000000) (hp : ∀ p ∈ pages, PageOK fmt env.parseReal p)
+    (hinfo : ∀ v, info = some v → OKVal fmt env.parseReal v)
+    (hsmall : (prepared fmt pages info).bytes.length ≤ fileMax) (hpf : 3 * (prepared fmt pages info).bytes.length ≤ pfuel) :
+    HInv fmt env pfuel dec (emptyB info pages.length) (prepared fmt pages info) :=
+  hinv_runB fmt env hd pfuel dec hdec _ [] (baseOK_empty info _) (baseVals_empty fmt env.parseReal info _ hinfo hn)
+    (buildOps pages) _ (hinv_base fmt env pfuel dec _ [] (baseOK_empty info _) (rep_empty _ info _))
+    (goodHist_buildOps fmt env.parseReal pages hn hp _) hsmall hpf
+
+/-- **C10 at byte level, reload.** The file `PdfBuilder::build` returns opens through the byte-level open path
+    (header at 0, table of `/Size + 1` slots from the cross-reference stream), and every object the builder wrote —
+    catalog, page tree, leaves, resources, content streams, the info dictionary — is read back by the byte-level
+    resolver with the value written (streams: same dictionary, a `file_range` covering exactly the data). -/
+theorem build_bytes_reload (fmt : R → List UInt8) (env : Env R) (hd : env.decrypt = none) (pfuel : Nat)
+    (dec : Dict R → List UInt8 → Out (List UInt8)) (hdec : NoFilter dec) (pages : List (PageB R)) (info : Option (Prim R))
+    (hn : pages.length ≤ 1000000) (hp : ∀ p ∈ pages, PageOK fmt env.parseReal p)
+    (hinfo : ∀ v, info = some v → OKVal fmt env.parseReal v)
+    (b' : BDoc R) (i : SaveInfo) (hs : saveB fmt (prepared fmt pages info) = (b', .ok i))
+    (hsmall : b'.bytes.length ≤ fileMax) (hpf : 3 * b'.bytes.length ≤ pfuel) (rfuel : Nat) :
+    buildB fmt pages info = .ok b'.bytes ∧
+    ∃ t T, openB env pfuel dec 2 b'.bytes = .ok (0, t, T) ∧ t.length = i.size + 1 ∧
+      dictGet T kRoot = some (.ref (3 * pages.length + 2) 0) ∧
+      (∀ id v g, chLookup (prep (prepared fmt pages info).doc).st2.changes id = some (v, g) →
+        ∃ o, resolveB env pfuel dec (rfuel + 2) b'.bytes 0 t id = .ok o ∧ Denotes b'.bytes o v) := by
+  have hmono : (prepared fmt pages info).bytes.length ≤ b'.bytes.length := by
+    rcases (saveB_cases fmt _ _ _ hs).2.2 with ⟨_, _, hbts⟩ | ⟨hno, _⟩
+    · rw [hbts]; simp
+    · exact absurd rfl (hno i)
+  have h1 := hinv_prepared fmt env hd pfuel dec hdec pages info hn hp hinfo (by omega) (by omega)
+  have bk := saveB_backend fmt _ [] _ b' i (baseOK_empty info _) h1.inv h1.rep.len hs
+  have hsecs : b'.doc.st.secs.length + 1 ≤ 2 := by
+    rw [bk.secs, (prepared_backend fmt pages info).2.1]; simp
+  refine ⟨by simp [buildB, hs], ?_⟩
+  exact C09Bytes.reload_sees_pending_bytes fmt env hd pfuel dec hdec _ _ [] (baseOK_empty info _)
+    (baseVals_empty fmt env.parseReal info _ hinfo hn) h1 b' i hs hsmall hpf 2 hsecs rfuel
+
+/-- **C10 at byte level, "reload with the same pages".** In the file `PdfBuilder::build` returns, read through the
+    byte-level open path and resolver: `/Root` of the trailer (object `3n + 2`) is the catalog, whose `/Pages` (object
+    `n + 1`) is the page tree with `/Kids [1 0 R … n 0 R]` and `/Count n`; leaf `k + 1` is page `k` — its dictionary as
+    built, `/Parent` the tree, `/Resources` object `n + 2 + 2k` = the resources given, `/Contents` object `n + 3 + 2k` =
+    a stream whose data are exactly the content bytes given. Same number of pages, same order, same payloads. -/
+theorem build_bytes_pages (fmt : R → List UInt8) (env : Env R) (hd : env.decrypt = none) (pfuel : Nat)
+    (dec : Dict R → List UInt8 → Out (List UInt8)) (hdec : NoFilter dec) (pages : List (PageB R)) (info : Option (Prim R))
+    (hn : pages.length ≤ 1000000) (hp : ∀ p ∈ pages, PageOK fmt env.parseReal p)
+    (hinfo : ∀ v, info = some v → OKVal fmt env.parseReal v)
+    (b' : BDoc R) (i : SaveInfo) (hs : saveB fmt (prepared fmt pages info) = (b', .ok i))
+    (hsmall : b'.bytes.length ≤ fileMax) (hpf : 3 * b'.bytes.length ≤ pfuel) (rfuel : Nat) :
+    ∃ t T, openB env pfuel dec 2 b'.bytes = .ok (0, t, T) ∧
+      dictGet T kRoot = some (.ref (3 * pages.length + 2) 0) ∧
+      (∃ o, resolveB env pfuel dec (rfuel + 2) b'.bytes 0 t (3 * pages.length + 2) = .ok o ∧
+        Denotes b'.bytes o (catalogVal (pages.length + 1))) ∧
+      (∃ o, resolveB env pfuel dec (rfuel + 2) b'.bytes 0 t (pages.length + 1) = .ok o ∧
+        Denotes b'.bytes o (treeVal (List.range' 1 pages.length))) ∧
+      ∀ k p, pages[k]? = some p →
+        (∃ o, resolveB env pfuel dec (rfuel + 2) b'.bytes 0 t (k + 1) = .ok o ∧
+          Denotes b'.bytes o (pageVal (pages.length + 1) (pages.length + 2 + 2 * k) (pages.length + 3 + 2 * k) p)) ∧
+        (∃ o, resolveB env pfuel dec (rfuel + 2) b'.bytes 0 t (pages.length + 2 + 2 * k) = .ok o ∧ Denotes b'.bytes o p.res) ∧
+        (∃ o, resolveB env pfuel dec (rfuel + 2) b'.bytes 0 t (pages.length + 3 + 2 * k) = .ok o ∧
+          Denotes b'.bytes o (contentVal p.content)) := by
+  have hmono : (prepared fmt pages info).bytes.length ≤ b'.bytes.length := by
+    rcases (saveB_cases fmt _ _ _ hs).2.2 with ⟨_, _, hbts⟩ | ⟨hno, _⟩
+    · rw [hbts]; simp
+    · exact absurd rfl (hno i)
+  have hb0 := baseOK_empty info pages.length
+  have h1 := hinv_prepared fmt env hd pfuel dec hdec pages info hn hp hinfo (by omega) (by omega)
+  have pf := prep_facts _ (prepared fmt pages info).doc [] hb0 h1.inv
+  obtain ⟨c1, c2, c3⟩ := prepared_changes fmt pages info
+  obtain ⟨_, t, T, hopen, _, hroot, hres⟩ := build_bytes_reload fmt env hd pfuel dec hdec pages info hn hp hinfo b' i hs hsmall hpf rfuel
+  refine ⟨t, T, hopen, hroot, hres _ _ _ (pf.ch_sup _ _ c1), hres _ _ _ (pf.ch_sup _ _ c2), fun k p hk => ?_⟩
+  obtain ⟨d1, d2, d3⟩ := c3 k p hk
+  exact ⟨hres _ _ _ (pf.ch_sup _ _ d1), hres _ _ _ (pf.ch_sup _ _ d2), hres _ _ _ (pf.ch_sup _ _ d3)⟩
+
+/-- **C10 at byte level, structural validity** of the file `PdfBuilder::build` returns, as statements about its bytes:
+    * it is the header line followed by one revision;
+    * the cross-reference stream has one row for every number `0 ..= xid`, all below `/Size`;
+    * every in-use row points at `n g obj` of that number and generation;
+    * the file ends with `startxref`, the offset of the cross-reference stream object and `%%EOF`; that object stands
+      at this offset and its dictionary announces `/Size`, the `/Length` of the rows' bytes and `/Root`;
+    * every stream the builder wrote carries a `/Length` equal to the number of bytes between `stream\n` and
+      `\nendstream`. -/
+theorem build_bytes_valid (fmt : R → List UInt8) (env : Env R) (hd : env.decrypt = none) (pfuel : Nat)
+    (dec : Dict R → List UInt8 → Out (List UInt8)) (hdec : NoFilter dec) (pages : List (PageB R)) (info : Option (Prim R))
+    (hn : pages.length ≤ 1000000) (hp : ∀ p ∈ pages, PageOK fmt env.parseReal p)
+    (hinfo : ∀ v, info = some v → OKVal fmt env.parseReal v)
+    (b' : BDoc R) (i : SaveInfo) (hs : saveB fmt (prepared fmt pages info) = (b', .ok i))
+    (hsmall : b'.bytes.length ≤ fileMax) (hpf : 3 * b'.bytes.length ≤ pfuel) :
+    (∃ rev, b'.bytes = headerBytes ++ rev) ∧
+    (i.rows.length = i.xid + 1 ∧ i.xid + 1 ≤ i.size) ∧
+    (∀ j pos g, i.rows[j]? = some (.raw pos g) →
+      ∃ rest, b'.bytes.drop pos = fmtNat j ++ [32] ++ fmtNat g ++ [32] ++ kwObj ++ [10] ++ rest) ∧
+    (∃ body D, D = xrefDict (prepared fmt pages info).doc.tr builderIds (prep (prepared fmt pages info).doc).infoRef i ∧
+      serialize fmt (.stream D (.pending (rowsData i))) = .ok body ∧
+      b'.bytes.drop i.xpos = (fmtNat i.xid ++ [32, 48, 32] ++ kwObj ++ [10] ++ body ++ kwEndobj ++ [10]) ++ tailBytes i ∧
+      dictGet D SaveBytes.kSize = some (.int i.size) ∧ dictGet D kwLength = some (.int (rowsData i).length) ∧
+      dictGet D kRoot = some (.ref (3 * pages.length + 2) 0)) ∧
+    (∀ j info' data g,
+      chLookup (prep (prepared fmt pages info).doc).st2.changes j = some (.stream info' (.pending data), g) →
+      dictGet info' kwLength = some (.int (data.length : Int)) ∧
+      ∃ off txt rest, SpellsStream env.parseReal info' data txt ∧ b'.bytes.drop off = objFrame j g (txt ++ [10]) ++ rest) := by
+  have hmono : (prepared fmt pages info).bytes.length ≤ b'.bytes.length := by
+    rcases (saveB_cases fmt _ _ _ hs).2.2 with ⟨_, _, hbts⟩ | ⟨hno, _⟩
+    · rw [hbts]; simp
+    · exact absurd rfl (hno i)
+  have hb0 := baseOK_empty info pages.length
+  have hv0 := baseVals_empty fmt env.parseReal info pages.length hinfo hn
+  have h1 := hinv_prepared fmt env hd pfuel dec hdec pages info hn hp hinfo (by omega) (by omega)
+  obtain ⟨hpb, _, _, hstart, _⟩ := prepared_backend fmt pages info
+  obtain ⟨s1, hids, _⟩ := saveB_cases fmt _ _ _ hs
+  have hLpos := layoutOf_pos fmt (prepared fmt pages info)
+  have bk := saveB_backend fmt _ [] _ b' i hb0 h1.inv h1.rep.len hs
+  have hbd := bounds_of_save fmt env.parseReal _ _ hLpos _ _ b'.doc [] i hb0 h1.inv s1 hv0 (by have := bk.xpos_le; omega)
+  have sb := saveB_spec fmt env.parseReal _ [] _ b' i hb0 h1.inv h1.rep.len hs hbd
+  have sh := save_shape _ _ hLpos _ _ b'.doc [] i hb0 h1.inv s1
+  have hi' := inv_save_ok _ _ hLpos _ _ b'.doc [] i hb0 h1.inv s1
+  have hidsP : (prepared fmt pages info).ids = builderIds := h1.ids
+  have htr : (prepared fmt pages info).doc.tr = (emptyB info pages.length).doc.tr := h1.inv.tr_eq
+  obtain ⟨_, _, _, _, _, _, _, _, _, _, hmax⟩ := save_ok_spec _ _ _ _ _ s1
+  have hvals := prep_vals fmt env pfuel dec _ _ [] hb0 hv0 h1 hmax
+  have pf := prep_facts _ (prepared fmt pages info).doc [] hb0 h1.inv
+  refine ⟨⟨_, by rw [sb.bytes, hpb]⟩, sh.rows_len, ?_, ?_, ?_⟩
+  · -- every in-use row is a row of this revision
+    intro j pos g hrow
+    have hjl : j < i.rows.length := (List.getElem?_eq_some_iff.mp hrow).1
+    have hjt : j < b'.doc.st.refs.length := by rw [sh.table_len]; have := sh.rows_len.1; omega
+    obtain ⟨r, hr1, hr2⟩ := sh.rows_of_table j b'.doc.st.refs[j] (by simp [hjt])
+    rw [hrow] at hr2; simp only [Option.some.injEq] at hr2; subst hr2
+    have he := rowOf_raw _ _ _ hr1
+    cases hc : chLookup b'.doc.st.changes j with
+    | none =>
+      exfalso
+      by_cases hj0 : j < (emptyB info pages.length).doc.st.refs.length
+      · have := hi'.refs_old j hj0 hc
+        have hj00 : j = 0 := by simp [emptyB] at hj0; exact hj0
+        subst hj00
+        rw [List.getElem?_eq_getElem hjt, he] at this
+        simp [emptyB] at this
+      · have := hi'.refs_new j (by omega) hjt hc
+        rw [List.getElem?_eq_getElem hjt, he] at this
+        simp at this
+    | some x =>
+      obtain ⟨v, g'⟩ := x
+      by_cases hjx : j = i.xid
+      · subst hjx
+        rw [sb.xrow] at hrow
+        simp only [Option.some.injEq, XRef.raw.injEq] at hrow
+        obtain ⟨rfl, rfl⟩ := hrow
+        obtain ⟨body, _, hdrop⟩ := sb.xbody
+        rw [hstart, Nat.zero_add] at hdrop
+        exact ⟨body ++ kwEndobj ++ [10] ++ tailBytes i, by rw [hdrop, fmtNat_zero]; simp⟩
+      · -- a pending value of the builder
+        obtain ⟨w, rows, hw, hr, hst, _, hxid, _, _, _, _⟩ := save_ok_spec _ _ _ _ _ s1
+        have hc2 : chLookup (prep (prepared fmt pages info).doc).st2.changes j = some (v, g') := by
+          rw [hst] at hc
+          simp only [commit, chLookup_chInsert] at hc
+          rw [if_neg (by rw [← hxid]; exact hjx)] at hc
+          exact hc
+        obtain ⟨off, rest, body, _, hrw, _, hdrop⟩ := sb.frames j v g' hc2
+        rw [hrow, hstart, Nat.sub_zero] at hrw
+        simp only [Option.some.injEq, XRef.raw.injEq] at hrw
+        obtain ⟨rfl, rfl⟩ := hrw
+        exact ⟨body ++ [10] ++ kwEndobj ++ [10] ++ rest, by rw [hdrop]; simp [objFrame]⟩
+  · obtain ⟨body, hbody, hdrop⟩ := sb.xbody
+    have hf := xrefDict_facts fmt env.parseReal _ _ (prepared fmt pages info).ids i hbd
+    rw [hidsP] at hbody hf
+    rw [hstart, Nat.zero_add] at hdrop
+    refine ⟨body, _, rfl, hbody, hdrop, hf.size, hf.length, ?_⟩
+    rw [hf.root, htr]; rfl
+  · intro j info' data g hc
+    have hmem : (j, Prim.stream info' (.pending data), g) ∈ (prep (prepared fmt pages info).doc).st2.changes := by
+      exact chLookup_mem _ _ _ hc
+    obtain ⟨hok, _, _⟩ := hvals _ hmem
+    simp only at hok
+    generalize hov : Prim.stream info' (StreamInner.pending data) = ov at hok
+    cases hok with
+    | direct v hsr _ _ => rw [← hov] at hsr; exact absurd hsr (by simp [Serialisable])
+    | stream info2 data2 hs2 _ _ hl2 _ =>
+      cases hov
+      obtain ⟨off, rest, body, _, _, hser, hdrop⟩ := sb.frames j _ g hc
+      obtain ⟨txt, hser2, hsp⟩ := serialize_stream_ok fmt env.parseReal info' data hs2
+      rw [hser2] at hser
+      simp only [Out.ok.injEq] at hser
+      subst hser
+      exact ⟨hl2, off, txt, rest, hsp, hdrop⟩
+
+/-! ### Non-vacuity: a one-page document, built, opened and resolved by the model inside the kernel -/
+
+/-- a page with a media box, a rotation, empty resources and the content stream `BT ET` -/
+def samplePage : PageB (List UInt8) :=
+  ⟨[], [([77, 101, 100, 105, 97, 66, 111, 120], .arr [.int 0, .int 0, .int 612, .int 792])], [([82, 111, 116, 97, 116, 101], .int 90)],
+   .dict [], [66, 84, 10, 69, 84, 10]⟩
+
+def sampleEnv : Env (List UInt8) :=
+  { parseReal := fun t => some t, resolveLen := fun _ _ => .err, allowMissingEndobj := false, decrypt := none, fileOffset := 0 }
+
+def sampleDec : Dict (List UInt8) → List UInt8 → Out (List UInt8) :=
+  fun d raw => match dictGet d kFilter with | none => .ok raw | some _ => .err
+
+example : NoFilter sampleDec := by intro d raw h; simp [sampleDec, h]
+
+/-- the payload hypotheses of the theorems hold for it -/
+example : PageOK id sampleEnv.parseReal samplePage where
+  other_ser := by simp [samplePage, SerialisableE]
+  other_wf := by simp [samplePage, PdfSyntax.WFE]
+  other_nd := by simp [samplePage, PdfSyntax.keysOf]
+  other_depth := by simp [samplePage, PdfSyntax.vdepthE]
+  boxes_ser := by simp [samplePage, SerialisableE, Serialisable, SerialisableL]
+  boxes_wf := by simp only [samplePage, PdfSyntax.WFE, PdfSyntax.WF, PdfSyntax.WFL, and_true]; decide
+  boxes_depth := by simp [samplePage, PdfSyntax.vdepthE, PdfSyntax.vdepth, PdfSyntax.vdepthL]
+  rest_ser := by simp [samplePage, SerialisableE, Serialisable]
+  rest_wf := by simp only [samplePage, PdfSyntax.WFE, PdfSyntax.WF, and_true]; decide
+  rest_depth := by simp [samplePage, PdfSyntax.vdepthE, PdfSyntax.vdepth]
+  res := .direct _ (by simp [samplePage, Serialisable, SerialisableE]) (by simp [samplePage, PdfSyntax.WF, PdfSyntax.WFE, PdfSyntax.keysOf])
+    (by simp [samplePage, PdfSyntax.vdepth, PdfSyntax.vdepthE, maxDepth])
+  content := by simp [samplePage]
+
+/-- the model builds the 504-byte file, opens it (header at 0, table of 9 slots) and resolves the content stream of
+    the page (object 4) to a stream whose `file_range` is the six bytes `BT\nET\n`, and the catalog (object 5) to a
+    dictionary of three entries -/
+example : (match buildB id [samplePage] none with
+    | .ok bs =>
+      bs.length == 504 &&
+      (match openB sampleEnv 1600 sampleDec 2 bs with
+        | .ok (st, t, _) => st == 0 && t.length == 9 &&
+          (match resolveB sampleEnv 1600 sampleDec 3 bs st t 4 with
+            | .ok (.stream _ a b) => (bs.drop a).take (b - a) == [66, 84, 10, 69, 84, 10]
+            | _ => false) &&
+          (match resolveB sampleEnv 1600 sampleDec 3 bs st t 5 with
+            | .ok (.plain (.dict d)) => d.length == 3
+            | _ => false)
+        | _ => false)
+    | _ => false) = true := by decide +kernel
+
+end C10Bytes
